@@ -60,6 +60,17 @@ def svOp (a b : Bytes) : List String → Option String
   | ["eqs"] => some (bool01 (eq a b) ++ bool01 (eq a b))
   | ["eqc"] => some (bool01 (eq a (ofCStr b)))
   | ["os"] => some (hexArg a)
+  -- further overloads of the same operations: `compare(pos, n, const char*)`, `compare(pos, n, const char*, count2)`,
+  -- the mixed `!=` / reversed `==` forms, the default-constructed view
+  | ["cmp3c", p1, n1] => do pure (optSign (compare3 a (← sizeTok p1) (← sizeTok n1) (ofCStr b)))
+  | ["cmp4c", p1, n1, c2] => do
+    let c2 ← sizeTok c2
+    if c2 > b.length then none else
+    pure (optSign (compare3 a (← sizeTok p1) (← sizeTok n1) (b.take c2)))
+  | ["nes"] => some (bool01 (!eq a b) ++ bool01 (!eq a b))
+  | ["nec"] => some (bool01 (!eq a (ofCStr b)) ++ bool01 (!eq (ofCStr b) a))
+  | ["ceq"] => some (bool01 (eq (ofCStr b) a))
+  | ["dflt"] => some ("0e" ++ sign (compare a []) ++ bool01 (eq [] []))
   | _ => none
 
 def handleSv (toks : List String) : String :=
@@ -106,6 +117,19 @@ def spOp (base : Bytes) : List String → Option String
     let s ← slice base (← sizeTok off) (← sizeTok cnt)
     pure (bool01 s.isEmpty)
   | ["default"] => some (showElems [])
+  -- static extent from a whole container; `operator[]` of a static-extent span; the std::array constructors and
+  -- nostd::data / nostd::size over the first four elements
+  | ["cfix", n] => do
+    let n ← sizeTok n
+    if ¬ fixedExtents.contains n then none else
+    pure (showSpanRes (← fixedSpan base n 0 base.length))
+  | ["getf", n, off, i] => do
+    let n ← sizeTok n
+    if ¬ fixedExtents.contains n then none else
+    let s ← slice base (← sizeTok off) n
+    pure (match spanGet s (← sizeTok i) with | some c => hexArg [c] | none => "oob")
+  | ["arr2"] => do pure (showElems (← slice base 0 4))
+  | ["util"] => do pure (showElems (← slice base 0 4))
   | _ => none
 
 def handleSp (toks : List String) : String :=
@@ -157,7 +181,7 @@ def parseShOp : List String → Option ShOp
     let h ← natTok h
     match baseName op with
     | "ctor" => if variantOk op [] then some (.ctor h) else none
-    | "ctorp" => if variantOk op ["u", "su", "ss"] then some (.ctorp h) else none
+    | "ctorp" => if variantOk op ["u", "su", "ss", "d"] then some (.ctorp h) else none
     | "dtor" => if variantOk op [] then some (.dtor h) else none
     | "asgn" => if variantOk op [] then some (.asgn h) else none
     | "asgp" => if variantOk op [] then some (.asgp h) else none
@@ -203,10 +227,10 @@ def parseUnOp : List String → Option UnOp
     let h ← natTok h
     match baseName op with
     | "ctor" => if variantOk op ["n"] then some (.ctor h) else none
-    | "ctorp" => if variantOk op ["su"] then some (.ctorp h) else none
+    | "ctorp" => if variantOk op ["su", "d"] then some (.ctorp h) else none
     | "dtor" => if variantOk op [] then some (.dtor h) else none
     | "asgn" => if variantOk op [] then some (.asgn h) else none
-    | "asgp" => if variantOk op ["su"] then some (.asgp h) else none
+    | "asgp" => if variantOk op ["su", "d"] then some (.asgp h) else none
     | "reset" => if variantOk op [] then some (.reset h) else none
     | "resetp" => if variantOk op [] then some (.resetp h) else none
     | "release" => if variantOk op [] then some (.release h) else none
@@ -279,6 +303,15 @@ def runVar : Var → List (List String) → List String → Option (List String)
     | ["get", i] => match natTok i with
       | some i => if i < 4 then runVar v os ((match v.get i with | some x => showVar x | none => "bad_access") :: acc) else none
       | none => none
+    | ["gett", i] => match natTok i with
+      | some i => if i < 4 then runVar v os ((match v.get i with | some x => showVar x | none => "bad_access") :: acc) else none
+      | none => none
+    | ["cget", i] => match natTok i with
+      | some i => if i < 4 then runVar v os ((match v.get i with | some x => showVar x | none => "bad_access") :: acc) else none
+      | none => none
+    | ["getift", i] => match natTok i with
+      | some i => if i < 4 then runVar v os ((match v.get i with | some x => showVar x | none => "null") :: acc) else none
+      | none => none
     | ["getif", i] => match natTok i with
       | some i => if i < 4 then runVar v os ((match v.get i with | some x => showVar x | none => "null") :: acc) else none
       | none => none
@@ -288,6 +321,7 @@ def runVar : Var → List (List String) → List String → Option (List String)
     | ["index"] => runVar v os (toString v.index :: acc)
     | ["visit"] => runVar v os (visitShow v :: acc)
     | ["copy"] => runVar v os (showVar v :: acc)
+    | ["move"] => runVar v os (showVar v :: acc)
     | _ => none
 
 def handleVar (toks : List String) : String :=
@@ -317,6 +351,11 @@ def frOp : List String → Option String
     let r ← frCall k x
     pure (toString r ++ "/1")
   | ["null"] => some "0"
+  | ["nullfp"] => some "0"
+  | ["callp", x] => do
+    let x ← intTok x
+    if x < -1000000 ∨ x > 1000000 then none else
+    pure (toString (callRef (fun y : Int => y + 1) x) ++ "/1")
   | ["copy", k, x] => do
     let k ← natTok k
     let x ← intTok x
